@@ -79,6 +79,25 @@ def r17_1(run):
     run.ob("R17.1", loc(asa, asa.node), asa.short, "asarray defaults are NumPy's (dtype=None, order=None)", ok,
            "no layout/dtype is requested unless the caller asks" if ok else
            f"defaults {d}: a default order/dtype forces a copy of inputs that do not already have it (memory is not reused)")
+    # Tensor.__array__: NumPy (np.array(t, copy=True), np.asarray(t, dtype=...)) delegates the copy decision to this protocol method and trusts
+    # the result; Tensor.__init__/tensor() obtain their defensive copy of a tensor argument through it
+    arr = anchor_func(run, f"{TB}.Tensor.__array__")
+    cfga = build_cfg(run, arr, {"NP_IS_V2": True, "not NP_IS_V2": False})
+    from ..cfg import reaching_defs as _rd
+    rets = [r for r in own_nodes(arr.node) if isinstance(r, ast.Return) and cfga.node_for(r) is not None and cfga.reachable(cfga.node_for(r))]
+    ok = bool(rets)
+    why = "np.asarray(self.data, dtype=dtype, copy=copy) with both options as the caller gave them"
+    for r in rets:
+        v = r.value
+        if not (isinstance(v, ast.Call) and fx.ext_name_of(arr, v.func) in ("numpy.asarray", "numpy.array") and v.args and norm(v.args[0]) == "self.data"
+                and norm(kw(v, "dtype") or ast.Constant(0)) == "dtype" and norm(kw(v, "copy") or ast.Constant(0)) == "copy"):
+            ok, why = False, f"`{norm(v)[:60]}` does not hand self.data, dtype and copy to NumPy"
+            break
+        for p_ in ("dtype", "copy"):
+            if _rd(cfga, p_, cfga.node_for(r)) != [ENTRY]:
+                ok, why = False, f"`{p_}` is re-bound before it reaches NumPy: a copy the caller (or NumPy on behalf of Tensor(x) / tensor(x)) asked for can be skipped, " \
+                                 f"so the 'copy' aliases the tensor's memory"
+    run.ob("R17.1", loc(arr, arr.node), arr.short, "__array__ forwards dtype and copy to NumPy unchanged", ok, why)
     # Tensor.__init__ copy handling (NumPy 2)
     cfgi = build_cfg(run, init, {"NP_IS_V2": True, "not NP_IS_V2": False})
     stores = [n for n in own_nodes(init.node) if isinstance(n, ast.Assign) and any(norm(t_) == "self.data" for t_ in n.targets)
